@@ -153,6 +153,10 @@ func dateFieldsFit(year, month, day, hour, minute, second, millisecond float64) 
 // fields that time.Date cannot take. A year or month for which there is no time
 // value gives NaN (15.9.1.12 step 7).
 func dateFromLargeFields(year, month, day, hour, minute, second, millisecond float64, location *Time.Location) float64 {
+	// 15.9.1.12 steps 5-6: the month is carried into the year first; only a year
+	// without a time value makes the result NaN (step 7).
+	month = math.Trunc(month)
+	year, month = math.Trunc(year)+math.Floor(month/12), math.Mod(math.Mod(month, 12)+12, 12)
 	if math.Abs(year) > 1e6 || math.Abs(month) > 1e7 {
 		return math.NaN()
 	}
